@@ -63,6 +63,74 @@ impl Block {
         self.block.clone()
     }
 
+    /// Checks that `contents` has the structure of a block: a restart array that lies within the
+    /// block and starts at offset 0, entries that parse without leaving the entries area and
+    /// that don't share more bytes than the previous key has, and restart points that refer, in
+    /// increasing order, to the beginning of entries with a full key.
+    ///
+    /// Iterators rely on this structure (they index and assert instead of reporting errors), so
+    /// contents from an untrusted source must pass this check before being given to `new()`.
+    pub fn is_well_formed(contents: &[u8]) -> bool {
+        let len = contents.len();
+        if len < 8 {
+            return false;
+        }
+        let n_restarts = u32::decode_fixed(&contents[len - 4..]) as usize;
+        if n_restarts == 0 || n_restarts > (len - 4) / 4 {
+            return false;
+        }
+        let restarts_off = len - 4 - 4 * n_restarts;
+        let restart = |ix: usize| -> usize {
+            let at = restarts_off + 4 * ix;
+            u32::decode_fixed(&contents[at..at + 4]) as usize
+        };
+        if restart(0) != 0 {
+            return false;
+        }
+        if restarts_off == 0 {
+            // no entries at all
+            return n_restarts == 1;
+        }
+
+        let mut offset = 0;
+        let mut key_len = 0;
+        let mut next_restart = 0;
+
+        while offset < restarts_off {
+            let entry = &contents[offset..restarts_off];
+            let mut head_len = 0;
+            let mut lengths = [0 as usize; 3];
+            for l in lengths.iter_mut() {
+                match usize::decode_var(&entry[head_len..]) {
+                    Some((n, used)) => {
+                        *l = n;
+                        head_len += used;
+                    }
+                    None => return false,
+                }
+            }
+            let (shared, non_shared, valsize) = (lengths[0], lengths[1], lengths[2]);
+
+            // Each length is checked against the remaining space before anything is added up.
+            if shared > key_len
+                || non_shared > entry.len() - head_len
+                || valsize > entry.len() - head_len - non_shared
+            {
+                return false;
+            }
+            if next_restart < n_restarts && restart(next_restart) == offset {
+                if shared != 0 {
+                    return false;
+                }
+                next_restart += 1;
+            }
+
+            key_len = shared + non_shared;
+            offset += head_len + non_shared + valsize;
+        }
+        next_restart == n_restarts
+    }
+
     pub fn new(opt: Options, contents: BlockContents) -> Block {
         assert!(contents.len() > 4);
         Block {
